@@ -3,6 +3,7 @@ import Votca.Base.Util
 import Driver.C18
 import Driver.C13
 import Driver.C20
+import Driver.C14
 /-! `votca_driver`: reads protocol lines `Cxx <op> <args…>` (implementation outputs included) on stdin,
 runs the executable model definitions (the ones the theorems are about) on the same inputs, prints
 `DISAGREE` / `PROPFAIL` lines for the cases that do not check and a `SUMMARY` at the end. -/
@@ -24,6 +25,7 @@ def dispatch (toks : List String) : Verdict :=
   | "C18" :: r => Driver.C18.handle r
   | "C13" :: r => Driver.C13.handle r
   | "C20" :: r => Driver.C20.handle r
+  | "C14" :: r => Driver.C14.handle r
   | _ => { agree := false, msg := "bad-line unknown property", tag := "bad" }
 
 partial def loop (h : IO.FS.Stream) (maxPrint : Nat) (acc : DAcc) : IO DAcc := do
